@@ -890,6 +890,13 @@ void mmd_assign_line_type(mmd_engine * e, token * line) {
 			case LINE_ATX_6:
 				// Up to three spaces may precede a list or header marker -- they are not part of the text
 				token_remove_first_child(line);
+
+				if (line->child && (line->type == LINE_LIST_BULLETED || line->type == LINE_LIST_ENUMERATED)) {
+					// The marker is re-inserted in front of this line's content later -- keep the tokens in source order
+					line->len -= line->child->start - line->start;
+					line->start = line->child->start;
+				}
+
 				break;
 
 			default:
